@@ -97,6 +97,7 @@ def op? (j : Json) : Option (Op K V) :=
 def req? (j : Json) : Option (Req K V) := do
   let src ← match getVal? j "src" with
     | some (.str "none") => some Src.none
+    | some (.str "tampered") => some Src.none   -- a cookie that fails verification/parsing is no cookie
     | some (.str _) => some Src.jar
     | none => some Src.jar
     | some v => (v.getNat?.toOption).map Src.issued
